@@ -55,10 +55,31 @@ pub fn run(ctx: &mut Ctx) {
     for case in ctx.cases(total) {
         ctx.begin_case(case);
         let mut rng = ctx.rng(case);
-        let (_m, e0) = universe(&mut rng, cfg_for(ctx, case), case);
+        let mut cfg = cfg_for(ctx, case);
+        // nodes whose subject is a (visible) node: reachable by decoding and by uncompressing /
+        // decrypting a node that was used as a subject
+        cfg.node_subject = case % 4 == 0;
+        let (_m, e0) = universe(&mut rng, cfg, case);
+        let e0 = if case % 7 == 0 && e0.is_node() {
+            ctx.count("node_subject_via_uncompress");
+            e0.compress().unwrap().add_assertion("outer", case).uncompress_subject().unwrap()
+        } else {
+            e0
+        };
         let key = fresh_key(&mut rng);
         // half of the cases start from an envelope that already contains obscured elements
-        let e = if rng.chance(1, 2) { gen::obscure_random(&e0, &mut rng, 2, &key) } else { e0.clone() };
+        let e = if rng.chance(1, 2) {
+            let mut r2 = rng.fork();
+            match trap::guard(|| gen::obscure_random(&e0, &mut r2, 2, &key)) {
+                Ok(x) => x,
+                Err(p) => {
+                    ctx.violation(&format!("elide-panic/pre-obscure/{}", p.signature()), &format!("{:?}", p), jhex(&e0));
+                    continue;
+                }
+            }
+        } else {
+            e0.clone()
+        };
         let before = tree_of(&e);
         if before.count() > 1 {
             ctx.nontrivial(before.shape_hash());
@@ -66,6 +87,9 @@ pub fn run(ctx: &mut Ctx) {
         let has_hidden = before.flatten().iter().any(|(_, n)| matches!(n.kind, Kind::Elided | Kind::Encrypted));
         if before.has_obscured() {
             ctx.count("inputs_with_obscured_parts");
+        }
+        if before.flatten().iter().any(|(_, n)| n.kind == Kind::Node && n.children[0].kind == Kind::Node) {
+            ctx.count("inputs_with_node_subject_node");
         }
         let proof_target = *rng.pick(&before.all_digests());
         let proof = e.proof_contains_target(&Digest::from_data(proof_target));
